@@ -39,7 +39,7 @@ func init() {
 			}
 			return 6000, 50 * time.Second
 		},
-		Real:  []string{"gtfs.ParseRealtime", "gtfs.ParseStatic", "csv.File", "nycttrips and nyctalerts extensions (all option combinations)", "Trip.Hash / Vehicle.Hash / Stop.Root / getters", "Go race detector (ThreadSanitizer)"},
+		Real:  []string{"gtfs.ParseRealtime", "gtfs.ParseStatic", "csv.File", "nycttrips and nyctalerts extensions (all option combinations)", "Trip.Hash / Vehicle.Hash / Stop.Root / getters", "Go race detector (ThreadSanitizer)", "AST-instrumented scratch copy of the working tree (yield points only)", "fresh child processes of the same harness binary (solo-result digests, also in the opposite call order)"},
 		Stubs: []string{"caller tasks and their programs", "cooperative scheduler", "yield-point proxy around the extension object", "shared input pool (world publisher / static table model)"},
 		Assume: []string{
 			"pre-emption happens only at yield points (extension interface calls, csv.NextRow, the two entity loops of ParseRealtime, task-level points); the race detector still sees every access",
